@@ -51,8 +51,8 @@ def math_groups(ctx):
                                if full else 'contracts/C20_math.h: termination, no UB, gcd(a,0) = a, result 0 iff both arguments 0, '
                                'result <= max(a,b) -- divisibility clauses not attempted at this width'),
                   replay=Replay(driver='C20/math.cc', mode='gcd', extra=[name]))
-        if w >= 32:
-            g.first = 'cvc5'
+        if full:
+            g.first, g.timeout = 'cadical', 300
         gs.append(g)
         if full:
             gs.append(Group(name='Math.reduce_fraction<%s>' % name, harness=H, entry='h_reduce_fraction',
@@ -66,12 +66,232 @@ def math_groups(ctx):
     return gs
 
 
+
+# ------------------------------------------------------------------------------------------------------------
+# Vector2/3/4, Matrix4 (src/Vector.hh, src/Vector-inl.hh)
+VHH = 'src/Vector.hh'
+VINL = 'src/Vector-inl.hh'
+
+OPNAME = {  # (operator token, kind of the parameter) -> C name suffix
+    ('operator-', ''): 'neg', ('operator+', 'V'): 'add', ('operator-', 'V'): 'sub', ('operator+', 'T'): 'adds',
+    ('operator-', 'T'): 'subs', ('operator*', 'T'): 'muls', ('operator/', 'T'): 'divs', ('operator%', 'T'): 'mods',
+    ('operator+=', 'V'): 'iadd', ('operator-=', 'V'): 'isub', ('operator+=', 'T'): 'iadds', ('operator-=', 'T'): 'isubs',
+    ('operator*=', 'T'): 'imuls', ('operator/=', 'T'): 'idivs', ('operator%=', 'T'): 'imods',
+    ('operator!', ''): 'isz', ('operator==', 'V'): 'eq', ('operator!=', 'V'): 'ne', ('operator<', 'V'): 'lt',
+    ('at', 'size_t'): 'at', ('norm1', ''): 'norm1', ('norm', ''): 'norm', ('norm2', ''): 'norm2', ('dot', 'V'): 'dot',
+    ('cross', 'V'): 'cross', ('str', ''): 'str', ('dimensions', ''): 'dimensions',
+    ('operator*', 'Vector4'): 'mulv', ('operator*', 'V_M'): 'mulm', ('operator*=', 'V_M'): 'imulm',
+    ('transposition', ''): 'transposition', ('transpose', ''): 'transpose', ('inverse', ''): 'inverse', ('invert', ''): 'invert',
+}
+# members that are not put under contract, with the reason (listed in NOT_DECIDED / DROPS)
+VEC_SKIP = {'norm': 'sqrt of a double', 'str': 'string formatting, not part of the property'}
+MAT_TAKE = ('ctor', 'transposition', 'transpose', 'mulv', 'mulm')
+
+
+def member_headers(src):
+    """every `template <typename T> <header> {` of Vector-inl.hh, whitespace-normalised"""
+    from vf import lex
+    text = src.text(VINL)
+    m = lex.mask(text)
+    out = []
+    for mo in re.finditer(r'template <typename T>\s*', m):
+        j = mo.end()
+        k = m.index('{', j)
+        out.append(' '.join(text[j:k].split()))
+    return out
+
+
+def hdr_regex(h):
+    return r'\s+'.join(re.escape(w) for w in h.split())
+
+
+def ctype(t):
+    """C spelling of a C++ parameter/return type of these classes"""
+    t = t.strip()
+    mo = re.fullmatch(r'(const )?(Vector[234]|Matrix4)<T>(&)?', t)
+    if mo:
+        return (mo.group(1) or '') + mo.group(2) + ('*' if mo.group(3) else '')
+    if t in ('T', 'bool', 'size_t', 'double'):
+        return t
+    raise ExtractionBreak('unexpected type %r in Vector-inl.hh' % t)
+
+
+def vec_units(ctx, src):
+    """x_vec_types.h (the data members, cut from Vector.hh), x_vec.inc (every member function taken), and the list of
+    (class, cname, c_function, kind-of-parameter, returns) used to build the groups."""
+    heads = member_headers(src)
+    ut = Unit(ctx, 'vec_types')
+    classes = ['Vector2', 'Vector3', 'Vector4', 'Matrix4']
+    first_member = {'Vector2': r'Vector2\(\);', 'Vector3': r'Vector3\(\);', 'Vector4': r'Vector4\(\);', 'Matrix4': r'Matrix4\(\);'}
+    for c in classes:
+        body = ut.snippet(src, VHH, r'template <typename T>\s*struct %s \{(.*?)\n\s*%s' % (c, first_member[c]), group=1)
+        if re.search(r'[()]', body) or not re.fullmatch(r'(\s*union \{[^{}]*\};)+\s*', body):
+            raise ExtractionBreak('%s: data members are no longer a sequence of anonymous unions: %r' % (c, body))
+        ut.raw('typedef struct %s {%s\n} %s;' % (c, body, c))
+    ut.write(suffix='.h')
+
+    u = Unit(ctx, 'vec')
+    table = []
+    seen = set()
+    for h in heads:
+        seen.add(h)
+        # constructors ---------------------------------------------------------------------------------------
+        mo = re.fullmatch(r'(Vector[234])<T>::\1\((.*?)\) : (.*)', h)
+        if mo:
+            cls, params, inits = mo.groups()
+            ptypes = [p.rsplit(' ', 1)[0] for p in params.split(', ')] if params else []
+            if not ptypes:
+                nm = 'make0'
+            elif all(p == 'T' for p in ptypes):
+                nm = 'make'
+            elif ptypes[0] == 'const Vector2<T>&':
+                nm = 'make_v2'
+            elif ptypes[0] == 'const Vector3<T>&':
+                nm = 'make_v3'
+            else:
+                raise ExtractionBreak('unknown constructor %s' % h)
+            cparams = ', '.join('%s %s' % (ctype(p.rsplit(' ', 1)[0]), p.rsplit(' ', 1)[1]) for p in params.split(', ')) if params else 'void'
+            refs = [p.rsplit(' ', 1)[1] for p in params.split(', ') if p.endswith(tuple('& ' + x for x in ('xy', 'xyz')))] if params else []
+            # body must be empty: everything the constructor does is its member-initialiser list
+            hd, body, _, _ = __import__('vf.lex', fromlist=['x']).find_def(src.text(VINL), hdr_regex(h), 'constructor')
+            if body.strip('{} \n\t') != '':
+                raise ExtractionBreak('%s: constructor body is not empty' % h)
+            stmts = []
+            for name, expr in re.findall(r'(\w+)\(([^()]*)\)', inits):
+                for r in refs:
+                    expr = re.sub(r'\b%s\.' % r, r + '->', expr)
+                stmts.append('  r.%s = %s;' % (name, expr))
+            if ', '.join('%s(%s)' % x for x in re.findall(r'(\w+)\(([^()]*)\)', inits)) != inits:
+                raise ExtractionBreak('%s: member-initialiser list not understood' % h)
+            cname = '%s_%s' % (cls, nm)
+            u.raw('%s %s(%s)\n{\n  %s r;\n%s\n  return r;\n}' % (cls, cname, cparams, cls, '\n'.join(stmts)))
+            u.functions.append({'file': VINL, 'cxx_header': h, 'c_header': '%s %s(%s)' % (cls, cname, cparams), 'line': 0})
+            table.append((cls, nm, cname, ','.join(ptypes), cls))
+            continue
+        if h == 'Matrix4<T>::Matrix4()':
+            u.function(src, VINL, hdr_regex(h), new_header='void Matrix4_ctor(Matrix4* self)', nloops=2, loops=MAT_LOOPS['ctor'])
+            table.append(('Matrix4', 'ctor', 'Matrix4_ctor', '', 'void'))
+            continue
+        # member functions -----------------------------------------------------------------------------------
+        mo = re.fullmatch(r'(?:constexpr )?(.*?) (Vector[234]|Matrix4)<T>::([\w]+|operator[^\s(]+)\((.*?)\)( const)?', h)
+        if not mo:
+            raise ExtractionBreak('member header not understood: %s' % h)
+        ret, cls, name, params, const = mo.groups()
+        ptype = params.rsplit(' ', 1)[0] if params else ''
+        pname = params.rsplit(' ', 1)[1] if params else ''
+        if ptype == 'const %s<T>&' % cls:
+            pk = 'V_M' if cls == 'Matrix4' and name in ('operator*', 'operator*=') else 'V'
+        elif ptype == 'const Vector4<T>&' and cls == 'Matrix4':
+            pk = 'Vector4'
+        else:
+            pk = ptype
+        if (name, pk) not in OPNAME:
+            raise ExtractionBreak('member %s is not in the C20 table (new operator?)' % h)
+        nm = OPNAME[(name, pk)]
+        if ret == 'std::string':
+            if nm != 'str':
+                raise ExtractionBreak('unexpected string-returning member %s' % h)
+            continue
+        if nm in VEC_SKIP or (cls == 'Matrix4' and nm not in MAT_TAKE):
+            continue
+        cname = '%s_%s' % (cls, nm)
+        cret = ctype(ret)
+        static = nm == 'dimensions'
+        cps = [] if static else ['%s%s* self' % ('const ' if const else '', cls)]
+        if params:
+            cps.append('%s %s' % (ctype(ptype), pname))
+        rules = []
+        if ptype.endswith('&'):
+            rules.append(Rule(r'\b%s\.' % pname, pname + '->', count=(0 if nm == 'ne' else '+'), regex=True))
+        if cls != 'Matrix4' and cret == cls or nm == 'mulv':
+            rc = 'Vector4' if nm == 'mulv' else cls
+            rules.append(Rule(r'\b%s(?:<T>)?\(' % rc, rc + '_make(', count=1, regex=True))
+        if cret.endswith('*'):
+            rules.append(Rule('return *this;', 'return self;', count=1))
+        if nm == 'ne':
+            rules.append(Rule('self->operator==(other)', '%s_eq(self, other)' % cls, count=1))
+        if nm == 'at':
+            rules.append(Rule('(this)', '(self)', count=1))
+        kw = {}
+        if cls == 'Matrix4':
+            if nm in ('transposition', 'mulm'):
+                rules.append(Rule('Matrix4<T> res;', 'Matrix4 res; Matrix4_ctor(&res);', count=1))
+            if nm == 'transpose':
+                rules += [Rule('Matrix4<T> t = self->transposition();', 'Matrix4 t = Matrix4_transposition(self);', count=1),
+                          Rule('*this = t;', '*self = t;', count=1)]
+            if nm in MAT_LOOPS:
+                kw = dict(loops=MAT_LOOPS[nm], nloops=MAT_NLOOPS[nm])
+            if nm in MAT_PREFIX:
+                kw['body_prefix'] = MAT_PREFIX[nm]
+            rules += MAT_RULES.get(nm, [])
+        u.function(src, VINL, hdr_regex(h), new_header='%s %s(%s)' % (cret, cname, ', '.join(cps) or 'void'), rules=rules, **kw)
+        table.append((cls, nm, cname, pk, cret))
+    u.write(suffix='.inc')
+    return ut, u, table
+
+
+# loop contracts of the Matrix4 members (text in contracts/C20_vec.h as macros)
+MAT_LOOPS = {
+    'ctor': {1: 'M4_CTOR_OUTER', 2: 'M4_CTOR_INNER'},
+    'transposition': {1: 'M4_TR_OUTER', 2: 'M4_TR_INNER'},
+    'mulm': {1: 'M4_MM_OUTER', 2: 'M4_MM_MID', 3: 'M4_MM_INNER'},
+}
+MAT_NLOOPS = {'ctor': 2, 'transposition': 2, 'mulm': 3}
+MAT_PREFIX = {}
+MAT_RULES = {}
+
+
+TDEF = {
+    'int64_t': ['T=int64_t', 'T_SIGNED=1', 'T_PROMOTES=0', 'T_MIN=INT64_MIN'],
+    'uint64_t': ['T=uint64_t', 'T_SIGNED=0', 'T_PROMOTES=0'],
+    'uint32_t': ['T=uint32_t', 'T_SIGNED=0', 'T_PROMOTES=0'],
+    'uint8_t': ['T=uint8_t', 'T_SIGNED=0', 'T_PROMOTES=1', 'T_IS_8BIT=1'],
+}
+HEAVY = ('muls', 'divs', 'mods', 'imuls', 'idivs', 'imods', 'norm2', 'dot', 'cross')   # 64-bit * / % : cvc5 first
+
+
+def vec_groups(ctx, table):
+    H = 'harness/C20/vec.c'
+    gs = []
+    T = 'int64_t'
+    for cls, nm, cname, pk, cret in table:
+        if cls == 'Matrix4':
+            continue
+        g = Group(name='Vector.%s<%s>.%s' % (cls, T, nm), harness=H, entry='h_' + cname, function='%s<%s>::%s' % (cls, T, nm),
+                  enforce=cname, defines=TDEF[T], kind='loop-free',
+                  clause_note='contracts/C20_vec_ops.h: the result is the componentwise definition (native operator on T per component)',
+                  replay=Replay(driver='C20/vec.cc', mode=cname, extra=[T]))
+        if nm in HEAVY:
+            g.first, g.stage1 = 'cvc5', 20
+        gs.append(g)
+    for cls in ('Vector2', 'Vector3', 'Vector4'):
+        gs.append(Group(name='Vector.%s<%s>.strict-weak-order' % (cls, T), harness=H, entry='l_%s_order' % cls,
+                        function='%s<%s>::operator< / == / !=' % (cls, T),
+                        replace=['%s_lt' % cls, '%s_eq' % cls, '%s_ne' % cls], defines=TDEF[T], kind='lemma', min_post=7,
+                        replay=Replay(driver='C20/vec.cc', mode='%s_order' % cls, extra=[T])))
+    # cross product orthogonal to both operands: contracts of cross and dot at an element type without undefined overflow,
+    # then the polynomial identity as a lemma over the two contracts
+    for T2 in ('uint8_t', 'uint32_t'):
+        for nm in ('cross', 'dot'):
+            g = Group(name='Vector.Vector3<%s>.%s' % (T2, nm), harness=H, entry='h_Vector3_' + nm,
+                      function='Vector3<%s>::%s' % (T2, nm), enforce='Vector3_' + nm, defines=TDEF[T2], kind='loop-free',
+                      replay=Replay(driver='C20/vec.cc', mode='Vector3_' + nm, extra=[T2]))
+            g.first, g.stage1 = 'cvc5', 20
+            gs.append(g)
+    gs.append(Group(name='Vector.Vector3<uint8_t>.cross-orthogonal', harness=H, entry='l_cross_orthogonal',
+                    function='Vector3<uint8_t>::cross / dot', replace=['Vector3_cross', 'Vector3_dot'], defines=TDEF['uint8_t'],
+                    kind='lemma', min_post=2, replay=Replay(driver='C20/vec.cc', mode='cross_orthogonal', extra=['uint8_t'])))
+    return gs
+
 def plan(ctx):
     src = Source(ctx.src)
     groups = []
     um = math_unit(ctx, src)
     ctx.functions_under_contract = list(um.functions)
     groups += math_groups(ctx)
+    ut, uv, table = vec_units(ctx, src)
+    ctx.functions_under_contract += uv.functions
+    groups += vec_groups(ctx, table)
     return groups
 
 
